@@ -167,7 +167,7 @@ class Check:
             seen = set()
             rename = {}
             for ob in s.obligations:
-                if ob.goal is True:
+                if ob.goal is True and ob.kind == "safety":
                     continue
                 nm = "%s/%s/%s" % (self.prop, group, ob.name)
                 if multi:
@@ -214,7 +214,15 @@ class Check:
             obs.append(ob)
             specs.append((to, steps, tiers, bool(dump and re.search(dump, ob.name))))
         t1 = time.time()
-        results = discharge.run_obligations(obs, specs)
+        # obligations whose goal evaluated to a concrete True during symbolic execution (structural facts: object
+        # identity, call counts, shapes) are discharged by evaluation, without a solver
+        conc = [k for k, ob in enumerate(obs) if ob.goal is True]
+        sobs = [ob for ob in obs if ob.goal is not True]
+        sspecs = [sp for ob, sp in zip(obs, specs) if ob.goal is not True]
+        results = discharge.run_obligations(sobs, sspecs)
+        for k in conc:
+            results[obs[k].name] = {"name": obs[k].name, "status": "proved", "info": None, "backend": "evaluation",
+                                    "time": 0.0, "log": [], "names": [], "head": "(concrete: evaluated to True)"}
         for ob in obs:
             r = results.get(ob.name) or {}
             meta[ob.name] = (ob, r.get("names") or [], r.get("head") or "")
